@@ -90,40 +90,22 @@ Theorem C19_start_search_height_spec : forall h r, 0 < r -> h < W32 ->
 Proof. exact start_search_height_spec. Qed.
 
 
-(* ---------------------------------------------------------------- convergence (model of fast_sync.go / block_sync.go) *)
+(* ---------------------------------------------------------------- convergence (model of fast_sync.go / block_sync.go / download.go;
+   tied to the code by running the real Syncer against a scripted peer over loopback libp2p, Corr.C19.check_sync) *)
 (* "partial": stated for an honest peer (it answers the common block [cid] and delivers its blocks after it), the
-   common block at or above the finalized height and, for fast sync, both tips within two rounds of it; the full
-   statement would also cover the peer-selection and common-block search rounds, tied only by correspondence *)
+   common block at or above the finalized height and, for fast sync, both tips within two rounds of it; peer
+   selection and the common-block search rounds are covered by their own theorems, not composed in *)
 Theorem C19_honest_peer_converges_partial : forall valid rs n pre cid own blocks th r2,
   chain n = pre ++ cid :: own -> ~ In cid pre ->
   (finalized n <= length pre)%nat -> (length own <= r2)%nat -> (th - length pre <= r2)%nat ->
   all_valid valid (pre ++ [cid]) blocks ->
-  fast_sync valid rs n (Some cid) blocks th r2 =
+  fast_sync valid rs n (Some cid) blocks EndOk th r2 =
     ({| chain := pre ++ cid :: blocks; temp := []; finalized := finalized n; banned := banned n |}, Synced) /\
-  block_sync valid n (Some cid) blocks =
+  block_sync valid n (Some cid) blocks EndOk =
     ({| chain := pre ++ cid :: blocks; temp := []; finalized := finalized n; banned := banned n |}, Synced).
 Proof.
   intros. split; [eapply honest_peer_converges_fast; eassumption|eapply honest_peer_converges_block; eassumption].
 Qed.
-
-(* ORIGINAL code (restoreBlocks deleting with saveTemp = true): restores the original chain and bans the peer only
-   when the FIRST applied block is the invalid one *)
-Theorem C19_failed_fast_sync_orig_first_block_case : forall valid n pre cid own bad rest th r2,
-  chain n = pre ++ cid :: own -> ~ In cid pre -> temp n = [] ->
-  (finalized n <= length pre)%nat -> (length own <= r2)%nat -> (th - length pre <= r2)%nat ->
-  valid (pre ++ [cid]) bad = false -> all_valid valid (pre ++ [cid]) own ->
-  let '(n', o) := fast_sync valid true n (Some cid) (bad :: rest) th r2 in
-  chain n' = chain n /\ banned n' = true /\ o = Failed.
-Proof. exact failed_fast_sync_restores_and_bans_partial. Qed.
-
-(* ... but not when some downloaded blocks were applied before the invalid one: it deleted them with
-   saveTemp = true, which overwrites the saved originals of the same heights (temp table is keyed by height) *)
-Theorem C19_failed_fast_sync_restores_orig_refuted :
-  exists valid n cid own blocks th r2,
-    chain n = [0] ++ own /\ cid = 0 /\ temp n = [] /\ all_valid valid [0] own /\
-    let '(n', o) := fast_sync valid true n (Some cid) blocks th r2 in
-    chain n' <> chain n /\ banned n' = false.
-Proof. exact failed_fast_sync_restores_refuted. Qed.
 
 (* REPAIRED code (restoreBlocks deletes without saving): if blocks downloaded during fast sync prove invalid, wherever
    the invalid block sits, the original blocks are restored and the peer is banned *)
@@ -132,14 +114,36 @@ Theorem C19_failed_fast_sync_restores_and_bans : forall valid n pre cid own good
   (finalized n <= length pre)%nat -> (length own <= r2)%nat -> (th - length pre <= r2)%nat ->
   all_valid valid (pre ++ [cid]) good -> valid ((pre ++ [cid]) ++ good) bad = false ->
   all_valid valid (pre ++ [cid]) own ->
-  let '(n', o) := fast_sync valid false n (Some cid) (good ++ bad :: rest) th r2 in
+  let '(n', o) := fast_sync valid false n (Some cid) (good ++ bad :: rest) EndOk th r2 in
   chain n' = chain n /\ banned n' = true /\ o = Failed.
-Proof. exact failed_fast_sync_restores_and_bans_fixed_model. Qed.
+Proof. exact failed_fast_sync_restores_and_bans. Qed.
 
-(* no block at or below the finalized height is ever deleted, whatever the peer answers *)
-Theorem C19_sync_never_deletes_finalized : forall valid rs n common blocks th r2,
+(* ORIGINAL code (restoreBlocks deleting with saveTemp = true): only when the FIRST applied block is the invalid one *)
+Theorem C19_failed_fast_sync_orig_first_block_case : forall valid n pre cid own bad rest th r2,
+  chain n = pre ++ cid :: own -> ~ In cid pre -> temp n = [] ->
+  (finalized n <= length pre)%nat -> (length own <= r2)%nat -> (th - length pre <= r2)%nat ->
+  valid (pre ++ [cid]) bad = false -> all_valid valid (pre ++ [cid]) own ->
+  let '(n', o) := fast_sync valid true n (Some cid) (bad :: rest) EndOk th r2 in
+  chain n' = chain n /\ banned n' = true /\ o = Failed.
+Proof. exact failed_fast_sync_orig_first_block_case. Qed.
+
+Theorem C19_failed_fast_sync_restores_orig_refuted :
+  exists valid n cid own blocks th r2,
+    chain n = [0] ++ own /\ cid = 0 /\ temp n = [] /\ all_valid valid [0] own /\
+    let '(n', o) := fast_sync valid true n (Some cid) blocks EndOk th r2 in
+    chain n' <> chain n /\ banned n' = false.
+Proof. exact failed_fast_sync_restores_orig_refuted. Qed.
+
+(* a truncated stream or a statelessly invalid block leaves a fast-syncing node's chain untouched *)
+Theorem C19_fast_sync_bad_stream_no_change : forall valid rs n common blocks e th r2, e <> EndOk ->
+  chain (fst (fast_sync valid rs n common blocks e th r2)) = chain n /\
+  snd (fast_sync valid rs n common blocks e th r2) <> Synced.
+Proof. exact fast_sync_bad_stream_no_change. Qed.
+
+(* no block at or below the finalized height is ever deleted, whatever the peer answers or serves *)
+Theorem C19_sync_never_deletes_finalized : forall valid rs n common blocks e th r2,
   (finalized n < length (chain n))%nat ->
-  keeps n (fst (fast_sync valid rs n common blocks th r2)) /\ keeps n (fst (block_sync valid n common blocks)).
+  keeps n (fst (fast_sync valid rs n common blocks e th r2)) /\ keeps n (fst (block_sync valid n common blocks e)).
 Proof. intros. split; [apply fast_sync_keeps_finalized; assumption|apply block_sync_keeps_finalized; assumption]. Qed.
 
 (* non-vacuity *)
